@@ -36,6 +36,13 @@ def run(tier):
     irrules.aggregate(ck, res2)
     ck.floor('returning paths of shrink_to_fit judged (NDEBUG flavour)', sum(r['res']['shrink_paths'] for r in res2 if r['ok']),
              30 if tier == 'quick' else 300)
+    # R04.6 (ir_steal): "data () is a block of an allocator equal to get_allocator ()" - a heap buffer changes
+    # owner only together with its allocator or between allocators that compared equal / are always equal
+    res6 = corpus.run_over(cfgs, 'svlib.rules.ir_steal', 'analyse_tu')
+    for r in res6:
+        if r['ok']:
+            r['res']['reports'] = [x for x in r['res']['reports'] if x.rule == 'R04.6']
+    irrules.aggregate(ck, res6)
     irrules.run_canaries(ck, {'ir_pair': [('R02.1', 'canary_unpaired'), ('R02.2', 'canary_steal_unguarded')]},
                          silent=('canary_ok_alloc',), assert_flavour=True)
     for part in ('c02_observers',):
@@ -52,6 +59,8 @@ def run(tier):
         'R02.1/R06.5: at every normal and exceptional exit of every instantiated gch:: function, each container whose '
         'm_data_ptr or m_capacity was written ends with a (pointer, capacity) pair of matching provenance (inline buffer + '
         'constant, allocation result + its count, both words of one other container, or unchanged). R02.2: every buffer '
-        'hand-over happens on a path whose conditions imply capacity(source) > InlineCapacity(destination). R02.6/R02.3: '
+        'hand-over happens on a path whose conditions imply capacity(source) > InlineCapacity(destination). R04.6: a heap buffer changes '
+        'owner only together with its allocator or between allocators that compared equal (so data () stays a block of an allocator '
+        'equal to get_allocator ()). R02.6/R02.3: '
         'observers reduce (clang -O2 normal forms) to the stated formulas over the three words. Not decided: liveness of '
         'the block data() points to (see C04) and size <= capacity beyond C10\'s guard-commit rule.')
